@@ -174,6 +174,25 @@ func ruleR07a(c *Check) {
 					okClose = true
 				}
 			}
+			// a staging helper that closes the file in a deferred literal and reports the close error through
+			// its named result: its nil return means "copied and closed"
+			for _, s := range engine.SitesIn(m) {
+				call, isCall := s.(*ssa.Call)
+				if !isCall {
+					continue
+				}
+				h := call.Call.StaticCallee()
+				if h == nil || len(h.Blocks) == 0 || !engine.IsFirstParty(pkgPathOf(h)) {
+					continue
+				}
+				for i, a := range call.Call.Args {
+					if i < len(h.Params) && sameFile(a, tmp) && closesAndReports(h, h.Params[i]) {
+						if w := onlyAfterSuccess(m, call, rn); w == "" {
+							okClose = true
+						}
+					}
+				}
+			}
 			if !okClose && why == "" {
 				why = "the temp file is not closed successfully before the rename on every path"
 			}
@@ -392,6 +411,79 @@ func ruleR07d(c *Check) {
 	}
 }
 
+// closesAndReports: h defers a function literal that closes the given file parameter and stores the error of
+// that Close into an error cell it captures (the named result), so a failed Close cannot end in a nil return.
+func closesAndReports(h *ssa.Function, file *ssa.Parameter) bool {
+	for _, b := range h.Blocks {
+		for _, in := range b.Instrs {
+			d, ok := in.(*ssa.Defer)
+			if !ok {
+				continue
+			}
+			mc, ok := d.Call.Value.(*ssa.MakeClosure)
+			if !ok {
+				continue
+			}
+			lit, ok := mc.Fn.(*ssa.Function)
+			if !ok {
+				continue
+			}
+			// which free variable is the file
+			fileVar := map[ssa.Value]bool{}
+			for i, bnd := range mc.Bindings {
+				if i >= len(lit.FreeVars) {
+					continue
+				}
+				if bnd == ssa.Value(file) {
+					fileVar[lit.FreeVars[i]] = true
+				}
+				if al, isAl := bnd.(*ssa.Alloc); isAl {
+					for _, ref := range *al.Referrers() {
+						if st, isSt := ref.(*ssa.Store); isSt && st.Val == ssa.Value(file) {
+							fileVar[lit.FreeVars[i]] = true
+						}
+					}
+				}
+			}
+			for _, s := range engine.SitesIn(lit) {
+				if engine.CalleeName(s) != "(*os.File).Close" {
+					continue
+				}
+				onFile := false
+				for _, o := range engine.Origins(s.Common().Args[0]) {
+					if fileVar[o] {
+						onFile = true
+					}
+					if ld, isLd := o.(*ssa.UnOp); isLd && fileVar[ld.X] {
+						onFile = true
+					}
+				}
+				if !onFile {
+					continue
+				}
+				// the close error reaches a captured error cell
+				for _, lb := range lit.Blocks {
+					for _, li := range lb.Instrs {
+						st, isSt := li.(*ssa.Store)
+						if !isSt {
+							continue
+						}
+						if _, isFV := st.Addr.(*ssa.FreeVar); !isFV {
+							continue
+						}
+						for _, o := range engine.Origins(st.Val) {
+							if cl, _ := engine.CallOf(o); cl == s {
+								return true
+							}
+						}
+					}
+				}
+			}
+		}
+	}
+	return false
+}
+
 func pairedDigest(c *Check, fn *ssa.Function, digest, reader ssa.Value, hashers map[*ssa.Function]bool) (bool, string) {
 	rb := c.G.Backward([]Node{reader}, func(e *engine.Edge) bool { return e.Via != nil && e.Via.Parent() == fn && e.Kind != engine.EField })
 	// content side: os.Open(p) or bytes.NewReader(b)
@@ -410,6 +502,30 @@ func pairedDigest(c *Check, fn *ssa.Function, digest, reader ssa.Value, hashers 
 	for _, o := range engine.Origins(digest) {
 		if o == nil {
 			return false, "digest may be the zero value"
+		}
+		// the digest is computed by reading the very handle that is then uploaded (rewinding it in between is
+		// R01v's obligation): a first-party function that is handed a view of the uploaded file
+		if call, _ := engine.CallOf(o); call != nil {
+			if h := call.Common().StaticCallee(); h != nil && engine.IsFirstParty(pkgPathOf(h)) {
+				up := map[ssa.Value]bool{}
+				readerRoots(reader, 0, up)
+				shares := false
+				for _, a := range call.Common().Args {
+					if !implementsReader(a.Type()) {
+						continue
+					}
+					ar := map[ssa.Value]bool{}
+					readerRoots(a, 0, ar)
+					for r := range ar {
+						if up[r] && strings.HasSuffix(r.Type().String(), "*os.File") {
+							shares = true
+						}
+					}
+				}
+				if shares {
+					continue
+				}
+			}
 		}
 		if call, _ := engine.CallOf(o); call != nil && calleeInSet(c, call, hashers) {
 			a := call.Common().Args[len(call.Common().Args)-1]
